@@ -27,7 +27,7 @@ import (
 // and uses of v only inside the `err != nil` branch for diagnostics are fine.
 
 func init() {
-	Register(&Rule{ID: "R-ERR-14", Props: []string{"C19"}, Floor: 30,
+	Register(&Rule{ID: "R-ERR-14", Props: []string{"C19", "C16"}, Floor: 30,
 		Doc: "for every call whose results are (v, …, error) with v of a nil-able kind: each use of v that publishes it — store into a field of a non-local object, slice element, global or captured variable; map update; channel send; argument of a function that retains its parameter (followed through callees; sync.Map.Store & co.); return as the success value next to a nil error — lies where that error is known to be nil. " +
 			"Otherwise a failed call's nil/partial result is cached or handed out as a hit and dereferenced later. `return v, err` and uses after the early return are accepted",
 		Controls: []string{"CtlCachedBeforeErrorCheck", "CtlReturnedAsSuccess"},
